@@ -23,7 +23,7 @@ LEVEL_TEXT = ("Kernel-checked, for every history of open/change/close notificati
 LEVEL_NOTE = ("Trusted: Lean kernel; the hand model of the tracked-field counter / memo interaction (pico view.rs, read_iso_literals_source), validated by correspondence only; "
               "that every answer is a function of the contents answered from is C01 + compiler determinism and is tied here by the per-step comparison with a fresh real server, "
               "not by a Lean theorem; watcher events are assumed delivered one per changed path (C20's DeliversAll).")
-PARTIAL = ["OPEN FINDING panic-after-disk-remove (pico F22): after an on-disk removal the running server's diagnostics pass can panic where a fresh server answers; panics are outside the Lean model (the harness restarts the server and the model's memo layer)",
+PARTIAL = ["panics of the running server are outside the Lean model: the harness reports them (signatures panic-after-disk-remove / panic:<request>), restarts the server and resets the model's memo layer; the panic after an on-disk removal seen before pico 79c6822 no longer reproduces",
            "OPEN FINDING fresh-servers-disagree: with duplicate erroneous declarations the diagnostics of two fresh servers differ (hash-map order); outside the Lean model",
            "start-up with no source file at all (the IsoLiteralMap counter then has the same first-write defect) is excluded from model and generator",
            "a semantic-token request for a path the server does not know panics inside the memoised function; such requests are not issued",
